@@ -64,4 +64,101 @@ theorem acked_entry_meets_every_election (stores : List (List Nat)) (e : Nat)
 example : Majority 3 [0, 2] := ⟨by decide, by decide, by decide⟩
 example : holders [[1, 2, 3], [1], [1, 2, 3]] 3 = [0, 2] := by decide
 
+/-! ## Election safety from durable votes (C05)
+
+One replica in one term. `mem` is the vote etcd/raft holds in memory, `durable` the vote in the
+host's log store, `sent` the candidates this replica has granted its vote to (messages that left).
+With `save = true` the host stores the hard state before the message leaves (the order `run_attests`
+proves for the code); with `save = false` the message leaves first and a crash can fall in between.
+A restart resumes from the store (`restart_resumes_from_store`). -/
+
+structure Voter where
+  durable : Option Nat
+  mem : Option Nat
+  sent : List Nat
+deriving DecidableEq, Repr
+
+inductive VEv where
+  | request (c : Nat)   -- a vote request from candidate `c` arrives
+  | restart             -- crash and restart
+deriving DecidableEq, Repr
+
+def Voter.init : Voter := ⟨none, none, []⟩
+
+def Voter.step (save : Bool) (v : Voter) : VEv → Voter
+  | .request c =>
+    match v.mem with
+    | some x => if x = c then { v with sent := c :: v.sent } else v
+    | none => { durable := if save then some c else v.durable, mem := some c, sent := c :: v.sent }
+  | .restart => { v with mem := v.durable }
+
+def Voter.run (save : Bool) (v : Voter) (evs : List VEv) : Voter := evs.foldl (Voter.step save) v
+
+/-- the store and the memory agree, and every grant that left names the stored vote -/
+def Voter.Inv (v : Voter) : Prop := v.durable = v.mem ∧ ∀ a ∈ v.sent, v.mem = some a
+
+theorem Voter.inv_step (v : Voter) (e : VEv) (h : v.Inv) : (v.step true e).Inv := by
+  obtain ⟨h1, h2⟩ := h
+  cases e with
+  | restart => exact ⟨by simp [Voter.step, h1], by simpa [Voter.step, h1] using h2⟩
+  | request c =>
+    unfold Voter.step
+    cases hm : v.mem with
+    | none =>
+      refine ⟨by simp, ?_⟩
+      intro a ha
+      simp only [List.mem_cons] at ha
+      rcases ha with rfl | ha
+      · rfl
+      · have := h2 a ha; rw [hm] at this; cases this
+    | some x =>
+      by_cases hx : x = c
+      · subst hx
+        simp only [if_true]
+        refine ⟨by simp [h1, hm], ?_⟩
+        intro a ha
+        simp only [List.mem_cons] at ha
+        rcases ha with rfl | ha
+        · rfl
+        · have := h2 a ha; rw [hm] at this; exact this
+      · simp only [hx, if_false]
+        exact ⟨h1, h2⟩
+
+theorem Voter.inv_run (v : Voter) (evs : List VEv) (h : v.Inv) : (v.run true evs).Inv := by
+  induction evs generalizing v with
+  | nil => exact h
+  | cons e rest ih => exact ih _ (v.inv_step e h)
+
+/-- **vote once**: with the vote stored before the grant leaves, a replica grants at most one
+candidate in a term, through any number of crashes and restarts -/
+theorem Voter.vote_once (evs : List VEv) (a b : Nat)
+    (ha : a ∈ (Voter.init.run true evs).sent) (hb : b ∈ (Voter.init.run true evs).sent) : a = b := by
+  have h := Voter.inv_run Voter.init evs ⟨rfl, by simp [Voter.init]⟩
+  have := (h.2 a ha).symm.trans (h.2 b hb)
+  exact Option.some.inj this
+
+/-- **election safety**: replicas `0 … n-1`, replica `r` sees the events `evs r` in this term. If
+two candidates each hold the grants of a majority, they are the same candidate. -/
+theorem election_safety (n : Nat) (evs : Nat → List VEv) (c₁ c₂ : Nat) (Q₁ Q₂ : List Nat)
+    (h₁ : Majority n Q₁) (h₂ : Majority n Q₂)
+    (g₁ : ∀ r ∈ Q₁, c₁ ∈ (Voter.init.run true (evs r)).sent)
+    (g₂ : ∀ r ∈ Q₂, c₂ ∈ (Voter.init.run true (evs r)).sent) : c₁ = c₂ := by
+  obtain ⟨r, hr1, hr2⟩ := quorum_intersection n Q₁ Q₂ h₁ h₂
+  exact Voter.vote_once (evs r) c₁ c₂ (g₁ r hr1) (g₂ r hr2)
+
+/-- **why the order matters**: when the grant leaves before the vote is stored, a crash in between
+lets the same replica grant a second candidate in the same term — and with it two majorities for
+two candidates (3 replicas: replica 0 votes for 1 only, replica 2 for 2 only, replica 1 for both) -/
+theorem send_before_save_votes_twice :
+    (Voter.init.run false [.request 1, .restart, .request 2]).sent = [2, 1] := by decide
+
+theorem send_before_save_elects_two :
+    let evs : Nat → List VEv := fun r => if r = 0 then [.request 1] else if r = 1 then [.request 1, .restart, .request 2] else [.request 2]
+    Majority 3 [0, 1] ∧ Majority 3 [1, 2] ∧
+    (∀ r ∈ [0, 1], 1 ∈ (Voter.init.run false (evs r)).sent) ∧
+    (∀ r ∈ [1, 2], 2 ∈ (Voter.init.run false (evs r)).sent) := by
+  refine ⟨⟨by decide, by decide, by decide⟩, ⟨by decide, by decide, by decide⟩, by decide, by decide⟩
+
+example : (Voter.init.run true [.request 1, .restart, .request 2, .request 1]).sent = [1, 1] := by decide
+
 end Anndb.Quorum
